@@ -1,6 +1,7 @@
 """C10 helper: a reader of Janet's marshal format (src/core/marsh.c, 1.38) that records where
 every field of a *valid* image lives, so that one field can be re-encoded with a hostile value
 (structure-aware storage corruption).  Pure Python, no Janet needed."""
+import os
 import struct
 
 LB_REAL, LB_NIL, LB_FALSE, LB_TRUE, LB_FIBER, LB_INTEGER, LB_STRING, LB_SYMBOL, LB_KEYWORD = range(200, 209)
@@ -526,6 +527,31 @@ def instr_values(word, ctx, r):
     return [enc_u32(v & 0xFFFFFFFF) for v in out]
 
 
+# Fields whose value becomes an allocation size (at load time, or when the loaded function is called).  Without an
+# allocation cap in the sanitizer runtime a request of 2^31 elements *succeeds* lazily under ASan and costs seconds of
+# shadow poisoning and gigabytes of RSS per case; jsim currently starts its children with a fixed environment, so the
+# driver cannot pass max_allocation_size_mb itself.  Until jsim sets such a cap, counts above HUGE_LIMIT are left out
+# (set C10_HUGE_VALUES=1 to put them back: they are what exposes the unchecked-length exits "janet out of memory").
+HUGE_VALUES = os.environ.get("C10_HUGE_VALUES") == "1"
+HUGE_LIMIT = 1 << 22
+ALLOC_ROLES = {"def.constants_length", "def.bytecode_length", "def.environments_length", "def.defs_length",
+               "def.symbolmap_length", "def.slotcount", "def.arity", "def.min_arity", "def.max_arity", "env.length",
+               "env.offset", "fiber.stacktop", "fiber.stackstart", "fiber.frame", "peg.num_constants", "peg.bytecode_len",
+               "chan.limit", "chan.count", "array.len", "tuple.len", "table.count", "struct.count", "buffer.len",
+               "string.len", "symbol.len", "keyword.len", "registry.len", "frame.prevframe"}
+
+
+def tame(role, vals, wrap_from=None):
+    """drop the values that would become multi-gigabyte allocations (see HUGE_VALUES)"""
+    if HUGE_VALUES or role not in ALLOC_ROLES:
+        return vals
+    out = []
+    for x in vals:
+        if x <= HUGE_LIMIT or (wrap_from is not None and x >= wrap_from):
+            out.append(x)
+    return out
+
+
 def field_values(f, r, total_len):
     """candidate replacement encodings (bytes) for field f"""
     if f.enc == "int":
@@ -545,13 +571,14 @@ def field_values(f, r, total_len):
         vals += list(INT_BOUNDARY) + [total_len, total_len - f.off, total_len + 1]
         if f.role.startswith("peg."):
             vals += [len(PEG_OPS), len(PEG_OPS) - 1] + list(range(0, len(PEG_OPS), 3)) + [0xFFFFFFFF, 0xFFFFFFFD, 0xFFFFFFFC]
-        out = [enc_int(x) for x in vals]
+        out = [enc_int(x) for x in tame(f.role, vals)]
         out.append(enc_int5(v))   # same value, long form
         return out
     if f.enc == "i64":
         v = f.val
-        return [enc_i64(x) for x in I64_BOUNDARY + [v + 1, v - 1, v * 2, v + (1 << 32), v + (1 << 62), v | (1 << 63),
-                                                    (1 << 64) - v if v else 5]]
+        # (the values from 2^61 up wrap around in the size computation or exceed what any allocator accepts: fast)
+        return [enc_i64(x) for x in tame(f.role, I64_BOUNDARY + [v + 1, v - 1, v * 2, v + (1 << 32), v + (1 << 62),
+                                                                 v | (1 << 63), (1 << 64) - v if v else 5], 1 << 61)]
     if f.enc == "u32":
         if f.role == "def.bytecode":
             return instr_values(f.val, f.ctx, r)
